@@ -28,7 +28,7 @@ def steady_cases(draw, tier="quick"):
          "b0": draw(gen.vec(n)), "B": draw(gen.mat(n, k)), "theta": draw(gen.vec(k, -1, 1)),
          "solver": draw(st.sampled_from(["default", "np_solve", "spsolve", "cg", "lstsq", "user"])),
          "grid": sorted(set(draw(st.lists(st.integers(0, 40), min_size=n, max_size=n, unique=True)))),
-         "obs": draw(st.sampled_from(["equal", "none", "subset", "offnode"])),
+         "obs": draw(st.sampled_from(["equal", "none", "subset", "offnode", "samelen"])),
          "obs_frac": draw(st.lists(st.floats(0.02, 0.98), min_size=1, max_size=5)),
          "obs_idx": draw(st.lists(st.integers(0, n - 1), min_size=1, max_size=n, unique=True)),
          "omap": draw(st.sampled_from(["none", "square", "first2", "affine"])),
@@ -84,6 +84,11 @@ def obs_grid(c, grid):
         return grid.copy()
     if c["obs"] == "subset":
         return grid[sorted(c["obs_idx"])]
+    if c["obs"] == "samelen":
+        # same number of nodes, first and last coincide with the solution grid, interior nodes moved half a cell
+        g = grid.astype(float).copy()
+        g[1:-1] = 0.5 * (grid[1:-1] + grid[2:])
+        return g
     return np.array(sorted(set(grid[0] + f * (grid[-1] - grid[0]) for f in c["obs_frac"])))
 
 
@@ -96,7 +101,7 @@ def run_steady(c, rec):
     grid = np.array(c["grid"], dtype=float)
     gobs = obs_grid(c, grid)
     tags = {"pde": "steady", "solver": c["solver"], "obs": c["obs"], "omap": c["omap"]}
-    if rec.classify(tags, c["obs"] in ("subset", "offnode") or c["omap"] != "none"):
+    if rec.classify(tags, c["obs"] in ("subset", "offnode", "samelen") or c["omap"] != "none"):
         return
     solver, kw = make_solver(c["solver"])
     kwargs = {"grid_sol": grid, "observation_map": OMAPS[c["omap"]]}
@@ -165,7 +170,7 @@ def time_cases(draw, tier="quick"):
          "tidx": draw(st.lists(st.integers(0, nt - 1), min_size=1, max_size=nt, unique=True)),
          "tfrac": draw(st.lists(st.floats(0.05, 0.95), min_size=1, max_size=3, unique=True)),
          "grid": sorted(set(draw(st.lists(st.integers(0, 40), min_size=n, max_size=n, unique=True)))),
-         "obs": draw(st.sampled_from(["equal", "none", "subset", "offnode"])),
+         "obs": draw(st.sampled_from(["equal", "none", "subset", "offnode", "samelen"])),
          "obs_frac": draw(st.lists(st.floats(0.02, 0.98), min_size=1, max_size=5)),
          "obs_idx": draw(st.lists(st.integers(0, n - 1), min_size=1, max_size=n, unique=True)),
          "omap": draw(st.sampled_from(["none", "square", "affine"]))}
